@@ -126,7 +126,7 @@ var serveFamilies = []*serveFamily{
 	{name: "carried", rules: []string{"C11|R-loop", "C11|R-reset"}, mask: evHandler | evReqReset | evRespReset, carried: true},
 	{name: "connstate", rules: []string{"C14|R1", "C14|R2"}, mask: evByteOK | evHandler, state: true},
 	{name: "shutdown", rules: []string{"C15|R3", "C15|R4"}, mask: evHandler | evWrote | evStopChecked | evIdleZero | evIdleMarked},
-	{name: "timeout", rules: []string{"C16|R1", "C16|R2", "C16|R3", "C10|R3"}, mask: evTimeoutT | evFreshCtx | evCopied | evHandler | evCtxSwapped},
+	{name: "timeout", rules: []string{"C16|R1", "C16|R2", "C16|R3", "C16|R5", "C10|R3"}, mask: evTimeoutT | evFreshCtx | evCopied | evHandler | evCtxSwapped | evTimeoutKnown},
 	{name: "hijack", rules: []string{"C17|R1", "C17|R3", "C17|R4"}, mask: evWrote | evFlushedAfterWrite | evHijackGo | evHijackNoResp},
 	{name: "head", rules: []string{"C03|R4"}, mask: evHandler | evHeadTested | evIsHead | evHeadSkip},
 }
@@ -283,10 +283,10 @@ func (p *Prog) serveLoop(prop string) *serveResult {
 		}
 	})
 	res.counts["C01.R2 reader calls"] = len(readerCalls)
-	readerBit := func(c *ssa.Call) uint64 {
+	readerIdx := func(c *ssa.Call) int8 {
 		for i, rc := range readerCalls {
 			if rc == c {
-				return evReaderBit0 << uint(i)
+				return int8(i + 1)
 			}
 		}
 		return 0
@@ -406,6 +406,11 @@ func (p *Prog) serveLoop(prop string) *serveResult {
 			st.Set(bit)
 		}
 	}
+	setPending := func(st *State, idx int8) {
+		if cur.readers {
+			st.N[1] = idx
+		}
+	}
 	setN := func(st *State, v int8) {
 		if cur.state {
 			st.N[0] = v
@@ -427,12 +432,9 @@ func (p *Prog) serveLoop(prop string) *serveResult {
 		v.n++
 	}
 
-	iterBits := evCtxSwapped | evTAStale0 | evTAStale0<<1 | evTAStale0<<2 | evTAStale0<<3 | evMayCont | evContRead | evHandler | evRespClose | evWrote | evFlushedAfterWrite | evStreamChecked | evErrResp |
+	iterBits := evTimeoutKnown | evCtxSwapped | evTAStale0 | evTAStale0<<1 | evTAStale0<<2 | evTAStale0<<3 | evMayCont | evContRead | evHandler | evRespClose | evWrote | evFlushedAfterWrite | evStreamChecked | evErrResp |
 		evStopChecked | evTimeoutT | evFreshCtx | evCopied | evNotHTTP11 | evKeepAliveHdr | evByteOK | evReadLoopPending | evIdleMarked |
 		evReqReset | evRespReset | evHeadSkip | evHeadTested | evIsHead
-	for i := range readerCalls {
-		iterBits |= evReaderBit0 << uint(i)
-	}
 
 	isCtxStore := func(in ssa.Instruction) bool {
 		st, ok := in.(*ssa.Store)
@@ -464,6 +466,16 @@ func (p *Prog) serveLoop(prop string) *serveResult {
 					}
 					if bad != "" {
 						check("C17|R3|no server use of the connection or the ctx after the hijack hand-off", false, st, in.Pos(), "after 'go hijackConnHandler' the serve function performed "+bad)
+					}
+				}
+			}
+			if st.Has(evHandler) && !st.Has(evTimeoutKnown) && inL[b] && cur.name == "timeout" {
+				if u, ok := in.(*ssa.UnOp); ok && u.Op == token.MUL {
+					if fa, ok := u.X.(*ssa.FieldAddr); ok && isCtxLoad(fa.X) {
+						if fv := fieldVar(fa.X.Type(), fa.Field); fv != nil && fv.Name() != "timeoutResponse" {
+							check("C16|R5|nothing but timeoutResponse is read from the ctx between the handler's return and the timeout test", false, st, in.Pos(),
+								"ctx."+fv.Name()+" is read after the handler returned and before the loop knows whether the handler timed out: on a timeout that ctx still belongs to the late handler, so the value is stale or racing")
+						}
 					}
 				}
 			}
@@ -534,13 +546,14 @@ func (p *Prog) serveLoop(prop string) *serveResult {
 			cv, _ := in.(*ssa.Call)
 			switch {
 			case in == ssa.Instruction(hcall):
-				// C01.R2a
-				for i, rc := range readerCalls {
-					if st.Has(evReaderBit0 << uint(i)) {
-						a := xx.Eval(st, rc)
-						check(fmt.Sprintf("C01|R2a|handler only after %s returned nil", shortCallee(rc)), a == False, st, in.Pos(),
-							"a path reaches the handler dispatch although the error of "+shortCallee(rc)+" is not known to be nil")
+				// C01.R2a: the error of the last head/body reader was found nil on this path
+				if cur.readers {
+					last := "?"
+					if k := int(st.N[1]); k > 0 && k <= len(readerCalls) {
+						last = shortCallee(readerCalls[k-1])
 					}
+					check("C01|R2a|handler only after the last head/body reader returned nil", st.N[1] == 0, st, in.Pos(),
+						"a path reaches the handler dispatch although the error returned by "+last+" was not found to be nil on that path")
 				}
 				if st.Has(evReadLoopPending) {
 					for _, rl := range readLoopCalls {
@@ -558,14 +571,14 @@ func (p *Prog) serveLoop(prop string) *serveResult {
 			case isCallTo(c, fMayContinue):
 			case isCallTo(c, fContRead), isCallTo(c, fContReadS):
 				setb(st, evContRead)
-				setb(st, readerBit(cv))
+				setPending(st, readerIdx(cv))
 			case isCallTo(c, fHdrRead):
 				st.Clear(evReadLoopPending)
-				setb(st, readerBit(cv))
+				setPending(st, readerIdx(cv))
 			case isCallTo(c, fReadLoop):
 				setb(st, evReadLoopPending)
 			case isCallTo(c, fParseURI), isCallTo(c, fReadLimit), isCallTo(c, fReadStream):
-				setb(st, readerBit(cv))
+				setPending(st, readerIdx(cv))
 			case isCallTo(c, fSetConnClose):
 				if strings.Contains(fieldPath(c.Common().Args[0]), "Response") {
 					setb(st, evRespClose)
@@ -730,7 +743,18 @@ func (p *Prog) serveLoop(prop string) *serveResult {
 				if isNilConst(bo.X) {
 					o = bo.Y
 				}
+				// "err == nil" found true for the value the pending reader returned
+				if cur.readers && st.N[1] > 0 && int(st.N[1]) <= len(readerCalls) {
+					isNil := tk == (bo.Op == token.EQL)
+					if isNil && xx.resolveAlias(st, o) == ssa.Value(readerCalls[st.N[1]-1]) {
+						st.N[1] = 0
+					}
+				}
 				if _, fv := loadedField(o); fv != nil && fv.Name() == "timeoutResponse" && inL[from] {
+					if st.Has(evHandler) && !st.Has(evTimeoutKnown) {
+						check("C16|R5|nothing but timeoutResponse is read from the ctx between the handler's return and the timeout test", true, st, from.Instrs[len(from.Instrs)-1].Pos(), "")
+					}
+					setb(st, evTimeoutKnown)
 					nonNil := tk == (bo.Op == token.NEQ)
 					if nonNil {
 						setb(st, evTimeoutT)
@@ -764,6 +788,11 @@ func (p *Prog) serveLoop(prop string) *serveResult {
 					for _, k := range staleKeys {
 						check(k, true, st, hcall.Pos(), "")
 					}
+				}
+				if cur.readers {
+					check("C01|R2a|no further request while a reader error is unexamined", st.N[1] == 0, st, hcall.Pos(),
+						"the loop continues with the next request although the error of the last head/body reader was not found nil")
+					st.N[1] = 0
 				}
 				check("C01|R2b|no further request after an error response", !st.Has(evErrResp), st, hcall.Pos(),
 					"the loop continues after writeErrorResponse")
@@ -821,9 +850,6 @@ func (p *Prog) serveLoop(prop string) *serveResult {
 		x.MaxStates = 3000000
 		// values the hooks evaluate must stay alive
 		if fam.readers {
-			for _, rc := range readerCalls {
-				x.Track(rc)
-			}
 			for _, rl := range readLoopCalls {
 				x.Track(rl)
 			}
@@ -906,6 +932,17 @@ func (p *Prog) serveLoop(prop string) *serveResult {
 			}
 		}
 		x.AliasPhis = aliasPhis
+		if fam.readers {
+			// remember which value each error-typed phi took on the current path
+			x.AliasPhis = map[*ssa.Phi]bool{}
+			for _, b := range fn.Blocks {
+				for _, in := range b.Instrs {
+					if ph, ok := in.(*ssa.Phi); ok && strings.HasSuffix(ph.Type().String(), "error") {
+						x.AliasPhis[ph] = true
+					}
+				}
+			}
+		}
 		if fam.name == "hijack" {
 			// remember where the returned error came from
 			x.AliasPhis = map[*ssa.Phi]bool{}
@@ -1017,6 +1054,8 @@ func (p *Prog) serveLoop(prop string) *serveResult {
 	// obligations that must have been exercised at least once (otherwise the rule went blind)
 	mustSee := []string{
 		"C01|R2b|no further request after an error response",
+		"C01|R2a|handler only after the last head/body reader returned nil",
+		"C01|R2a|no further request while a reader error is unexamined",
 		"C02|R1b|no further request after a rejected expectation",
 		"C02|R2|streamed body consumption is consulted before the next request",
 		"C02|R2|request stream is only dropped after it was found fully read",
@@ -1037,6 +1076,7 @@ func (p *Prog) serveLoop(prop string) *serveResult {
 		"C03|R4|HEAD is tested on the served request before the response is written",
 		"C03|R4|HEAD response is written with SkipBody",
 		"C16|R3|per-request ctx fields are not read from the swapped-in ctx",
+		"C16|R5|nothing but timeoutResponse is read from the ctx between the handler's return and the timeout test",
 		"C10|R3|close decision does not read per-request fields from the swapped-in ctx",
 	}
 	for _, k := range mustSee {
@@ -1083,6 +1123,7 @@ const (
 	evHijackNoResp uint64 = 1 << 39
 	evCtxSwapped   uint64 = 1 << 37 // the ctx variable was re-assigned after the handler ran (timeout hand-off)
 	evTAStale0     uint64 = 1 << 32 // 4 bits: type assertion i to *requestStream was made on the swapped ctx
+	evTimeoutKnown uint64 = 1 << 36 // the loop has tested ctx.timeoutResponse after the handler
 )
 
 func typeIsNetConn(t types.Type) bool {
@@ -1124,6 +1165,26 @@ func byteOK(x *Explorer, st *State, errs []ssa.Value) bool {
 		}
 	}
 	return false
+}
+
+// resolveAlias follows the phi alias chain of v on this path to the value it
+// currently stands for.
+func (x *Explorer) resolveAlias(st *State, v ssa.Value) ssa.Value {
+	for i := 0; i < 10; i++ {
+		if _, isPhi := v.(*ssa.Phi); !isPhi {
+			return v
+		}
+		k, ok := st.ali[x.Canon(v)]
+		if !ok {
+			return v
+		}
+		nv := x.byKey[k]
+		if nv == nil {
+			return v
+		}
+		v = nv
+	}
+	return v
 }
 
 // resolvesToGlobal follows the phi alias chain of v on this path.
